@@ -71,6 +71,7 @@ type World struct {
 	Panic      string
 	Timeout    time.Duration
 	IO         IOState
+	ChunkMem bool // values are held in memory as chunks (neutral callback configuration of C17)
 	Roots      [][]byte        // root records written by the successful flushes so far
 	PreImage   []byte          // file image before the Flush in progress
 	LastEvents []IOEvent       // file calls of the last API call
@@ -132,6 +133,53 @@ func errs(err error) string {
 	return "ok"
 }
 
+// memChunk is the in-memory representation used by the "chunked in memory" neutral
+// callback configuration (the tools/slab pattern): Item.Val holds the first chunk, the
+// rest hangs off Item.Transient.
+type memChunk struct{ rest [][]byte }
+
+const memChunkLen = 4
+
+// fullVal reassembles the value of an item (identity without chunking).
+func fullVal(i *gkvlite.Item) []byte {
+	if i.Val == nil {
+		return nil
+	}
+	mc, ok := i.Transient.(*memChunk)
+	if !ok || mc == nil {
+		return i.Val
+	}
+	v := append([]byte{}, i.Val...)
+	for _, c := range mc.rest {
+		v = append(v, c...)
+	}
+	return v
+}
+
+// chunkItem builds the chunked representation of (key, val, prio).
+func chunkItem(key, val []byte, prio int32) *gkvlite.Item {
+	it := &gkvlite.Item{Key: key, Priority: prio}
+	if val == nil {
+		return it
+	}
+	if len(val) <= memChunkLen {
+		it.Val = val
+		it.Transient = &memChunk{}
+		return it
+	}
+	it.Val = val[:memChunkLen:memChunkLen]
+	mc := &memChunk{}
+	for p := memChunkLen; p < len(val); p += memChunkLen {
+		e := p + memChunkLen
+		if e > len(val) {
+			e = len(val)
+		}
+		mc.rest = append(mc.rest, val[p:e:e])
+	}
+	it.Transient = mc
+	return it
+}
+
 func itemObs(i *gkvlite.Item, err error, wv bool) string {
 	if err != nil {
 		return "err"
@@ -141,7 +189,7 @@ func itemObs(i *gkvlite.Item, err error, wv bool) string {
 	}
 	v := "*"
 	if wv {
-		v = hx(i.Val)
+		v = hx(fullVal(i))
 	}
 	return fmt.Sprintf("i:%s:%s:%d", hx(i.Key), v, i.Priority)
 }
@@ -199,7 +247,7 @@ func visObs(vs []visited, wv, withDepth bool, err error) string {
 func copyItem(i *gkvlite.Item, depth uint64) visited {
 	v := visited{Key: append([]byte{}, i.Key...), Prio: i.Priority, Depth: depth}
 	if i.Val != nil {
-		v.Val = append([]byte{}, i.Val...)
+		v.Val = append([]byte{}, fullVal(i)...)
 	}
 	return v
 }
@@ -267,6 +315,9 @@ func (w *World) do(op Op) string {
 	}
 	switch op.K {
 	case "set":
+		if w.ChunkMem {
+			return errs(c.SetItem(chunkItem(op.Key, op.Val, op.Prio)))
+		}
 		return errs(c.SetItem(&gkvlite.Item{Key: op.Key, Val: op.Val, Priority: op.Prio}))
 	case "del":
 		ok, err := c.Delete(op.Key)
@@ -275,6 +326,18 @@ func (w *World) do(op Op) string {
 		}
 		return strconv.FormatBool(ok)
 	case "get":
+		if w.ChunkMem {
+			// Get returns Item.Val only; with values chunked in memory the application reads through GetItem
+			i, err := c.GetItem(op.Key, true)
+			defer w.release(s, c, i)
+			if err != nil {
+				return "err"
+			}
+			if i == nil {
+				return "nil"
+			}
+			return "v:" + hx(fullVal(i))
+		}
 		v, err := c.Get(op.Key)
 		if err != nil {
 			return "err"
@@ -634,7 +697,7 @@ func dumpStore(s *gkvlite.Store) string {
 		}
 		if mi != nil {
 			err = c.VisitItemsAscend(mi.Key, true, func(i *gkvlite.Item) bool {
-				fmt.Fprintf(&sb, " %s/%s/%d", hx(i.Key), hx(i.Val), i.Priority)
+				fmt.Fprintf(&sb, " %s/%s/%d", hx(i.Key), hx(fullVal(i)), i.Priority)
 				return true
 			})
 			if err != nil {
